@@ -385,12 +385,14 @@ def leaveBranch (l : List String) : Bool :=
               l[i + 3]? == some "set:c.removed=true" && l[i + 4]? == some "end"
   | none => false
 
+/- since /repo 87856f0 Shutdown reads `readyB` and `removed` once, under their own lock, into the locals `ready` and
+   `removed` (and sets both the local and the field when it leaves): the guards below are over those locals. -/
 theorem gen_shutdown_order :
-    before "if:c.consensus != nil && c.config.LeaveOnShutdown && c.readyB && !c.removed" "call:RmPeer" Gen.clusterShutdown = true ∧
+    before "if:c.consensus != nil && c.config.LeaveOnShutdown && ready && !removed" "call:RmPeer" Gen.clusterShutdown = true ∧
     leaveBranch Gen.clusterShutdown = true ∧
     before "set:c.removed=true" "if:con != nil" Gen.clusterShutdown = true ∧
-    before "if:con != nil" "if:c.removed && c.readyB" Gen.clusterShutdown = true ∧
-    before "if:c.removed && c.readyB" "call:Clean" Gen.clusterShutdown = true ∧
+    before "if:con != nil" "if:removed && ready" Gen.clusterShutdown = true ∧
+    before "if:removed && ready" "call:Clean" Gen.clusterShutdown = true ∧
     guard "!cc.shutdown" "E" Gen.consClean = true ∧ before "if:!cc.shutdown" "call:CleanupRaft" Gen.consClean = true := by decide
 
 /-! ## what the model allows satisfies the property -/
